@@ -2,6 +2,7 @@ import PygVerif.Generated
 import PygVerif.Lemmas.Selector
 import PygVerif.Model.Proto
 import PygVerif.Lemmas.Site
+import PygVerif.Lemmas.SiteCongr
 /-!
 # C01 — Nothing outside the document root is ever read, listed, run or revealed
 
@@ -155,6 +156,35 @@ theorem two_worlds_same_answer (c : SiteCfg) (hc : c.forbidden = Generated.forbi
       intro st; unfold dispatch; simp [hns]
     exact ⟨by rw [hd, hd], by unfold serve; rw [hd, hd]⟩
 
+/-- sidecar extensions of the shipped configuration carry no separator and are at least three characters long -/
+theorem shipped_eaexts_ok : ∀ e ∈ Generated.eaexts, ExtOk e.1 := by
+  intro e he
+  have : ∀ e ∈ Generated.eaexts, (!e.1.contains 47 && decide (3 ≤ e.1.length)) = true := by decide
+  have h := this e he
+  simp only [Bool.and_eq_true, Bool.not_eq_true', decide_eq_true_eq] at h
+  exact ⟨fun hm => by simp [List.contains_iff_mem, hm] at h, h.2⟩
+
+/-- **Two worlds, one listing.**  For every configuration with the shipped filter and sidecar
+    tables, every pair of file systems `W`, `W'` in which the configured root path leads to the
+    same well-formed directory tree, and every selector: the entries of a listing request —
+    directory walk, link files, `.cap` overrides, sidecar abstracts, gophermap lines populated
+    from the file system — are the same.  Nothing the listing code asks the file system about
+    lies outside the root.  (Core handler chain; symbolic links are not modelled.) -/
+theorem two_worlds_same_listing (c : SiteCfg) (hc : c.forbidden = Generated.forbidden) (he : c.eaexts = Generated.eaexts)
+    (W W' : Node) (rootStr : Str) (anc anc' : List Node) (kids : List (Str × Node))
+    (hroot : kwalk [] W (splitOn 47 rootStr) = some (anc, .dir kids))
+    (hroot' : kwalk [] W' (splitOn 47 rootStr) = some (anc', .dir kids))
+    (hwf : (Node.dir kids).wf = true) (sel : Str) (hh : sel.head? = some 47) :
+    siteEntries c (kstat W rootStr) sel = siteEntries c (kstat W' rootStr) sel := by
+  have hdd : [46,46] ∈ c.forbidden := by rw [hc]; exact dotdot_forbidden
+  have hnul : [0] ∈ c.forbidden := by rw [hc]; exact nul_forbidden
+  have hext : ∀ e ∈ c.eaexts, ExtOk e.1 := by rw [he]; exact shipped_eaexts_ok
+  have key : ∀ (V : Node) (a : List Node), kwalk [] V (splitOn 47 rootStr) = some (a, .dir kids) →
+      siteEntries c (statAt (.dir kids)) sel = siteEntries c (kstat V rootStr) sel :=
+    fun V a hr => siteEntries_congr (agree_statAt_kstat V rootStr a kids hr) (rootNotFile_statAt kids) c hdd hnul hext
+      (fun p ks hp => statAt_names_valid _ hwf p ks hp) sel hh
+  rw [← key W anc hroot, ← key W' anc' hroot']
+
 /-- a selector the filter rejects is answered not-found, whatever the file system holds -/
 theorem insecure_is_notfound (c : SiteCfg) (hc : c.forbidden = Generated.forbidden) (st : StatFn) (sel : Str)
     (hs : secure sel = false) : serve c st sel = .notFound := by
@@ -163,6 +193,10 @@ theorem insecure_is_notfound (c : SiteCfg) (hc : c.forbidden = Generated.forbidd
   simp [hns]
 
 /-! ### non-vacuity and sharpness -/
+
+/-- the hypotheses of `two_worlds_same_listing` are satisfiable: a well-formed root holding a link file, a `.cap` directory and a sidecar -/
+example : (Node.dir [(lit "a.txt", .file [104, 105]), (lit ".names", .file []), (lit ".cap", .dir [(lit "a.txt", .file [])]),
+    (lit "a.txt.abstract", .file [120]), (lit "sub dir", .dir [])]).wf = true := by decide +kernel
 
 /-- a world with a secret next to the root: the climbing path reaches it in the kernel's
     resolution (`kstat` without the filter), and the filter is what answers not-found -/
